@@ -372,7 +372,7 @@ def run(ctx: vlib.Ctx):
     # the seal theorems take "a change of content changes the emitted text" as a hypothesis about the emitter; the text
     # engine proves it for flat documents (C15_flat_emit_injective): build and audit that module too
     ctx.translate("text")
-    ctx.lean("text", ["Octave.Props.C01roundtrip"], extra_targets=())
+    ctx.lean("text", ["Octave.Props.C01roundtrip", "Octave.Props.C01tree"], extra_targets=())
     changed = vlib.fingerprints_changed(ctx.prop, ANCHORS)
     if changed:
         ctx.widen = max(ctx.widen, 8)
